@@ -94,7 +94,7 @@ macro_rules! rr_exec_harness {
     };
 }
 
-pub const R5Q: RShape = RShape { ncb: 2, nsteps: 2, inc_mask: 3, cost_mask: 1, r_mask: 7, limit_mask: 0, limit_max: 8, pmask: 1 };
+pub const R5Q: RShape = RShape { ncb: 2, nsteps: 2, inc_mask: 7, cost_mask: 1, r_mask: 7, limit_mask: 0, limit_max: 8, pmask: 1 };
 pub const R5T: RShape = RShape { ncb: 2, nsteps: 3, inc_mask: 3, cost_mask: 1, r_mask: 15, limit_mask: 0, limit_max: 16, pmask: 1 };
 pub const X5Q: XShape = XShape { nsteps: 2, inc_mask: 3, cost_mask: 1, limit_mask: 0, limit_max: 0, pmask: 1, first_mask: 1, gap_mask: 3 };
 pub const X5T: XShape = XShape { nsteps: 3, inc_mask: 3, cost_mask: 1, limit_mask: 0, limit_max: 0, pmask: 1, first_mask: 1, gap_mask: 3 };
